@@ -48,7 +48,8 @@ class World:
         self.printed = []
         self.env = {}
         self.cwd = "/cwd"
-        self.dyn = {}          # directories with symbolically named entries: path -> DynDir (see harnesses)
+        self.dyn = {}          # directories with symbolically named entries: path -> DynDir (mirsym/summ_dyn.py)
+        self.dyn_candidates = set()
 
     # ---- universe
     def add(self, path, kind, **kw):
@@ -202,6 +203,34 @@ def install(P):
             return NONE
         return Some(p.rsplit("/", 1)[-1])
 
+    def split_ext(name):
+        if name in ("", "..") or "." not in name[1:]:
+            return name, None
+        st, ex = name.rsplit(".", 1)
+        return st, ex
+
+    @P.summary("Path::file_stem")
+    def _file_stem(ctx, c):
+        p = pstr(c.args[0]).rstrip("/")
+        if not p or p.endswith("/.."):
+            return NONE
+        return Some(split_ext(p.rsplit("/", 1)[-1])[0])
+
+    @P.summary("Path::extension")
+    def _extension(ctx, c):
+        p = pstr(c.args[0]).rstrip("/")
+        if not p:
+            return NONE
+        ex = split_ext(p.rsplit("/", 1)[-1])[1]
+        return NONE if ex is None else Some(ex)
+
+    @P.summary("Path::with_extension")
+    def _with_extension(ctx, c):
+        p, ext = pstr(c.args[0]).rstrip("/"), pstr(c.args[1])
+        d, _, name = p.rpartition("/")
+        st = split_ext(name)[0]
+        return (d + "/" if d or p.startswith("/") else "") + st + ("." + ext if ext else "")
+
     @P.summary("Path::is_absolute", "Path::has_root")
     def _is_abs(ctx, c):
         return pstr(c.args[0]).startswith("/")
@@ -343,7 +372,12 @@ def install(P):
         if w.fault("opendir", phys):
             return ioerr()
         if phys in w.dyn:
-            return Ok(w.dyn[phys].read_dir(ctx, logical))
+            it = w.dyn[phys].read_dir(ctx, logical)
+            # concrete children of a dynamic directory (e.g. env.launch/<process>/) are listed as well
+            for ch in w.children(phys):
+                if not w.kind_is(w.get(ch), ABSENT, f"rd-child:{ch}"):
+                    it.items.append(Ok(Opaque("DirEntry", logical.rstrip("/") + "/" + ch.rsplit("/", 1)[1])))
+            return Ok(it)
         ents = []
         for ch in w.children(phys):
             if not w.kind_is(w.get(ch), ABSENT, f"rd-child:{ch}"):
@@ -420,6 +454,8 @@ def install(P):
         n = w.get(phys)
         if not w.bit(n, 0o400, f"r:{phys}"):
             return "Other"
+        if phys in w.dyn:
+            w.dyn[phys].clear()
         for ch in w.children(phys):
             cn = w.get(ch)
             if w.kind_is(cn, ABSENT, f"rra-absent:{ch}"):
@@ -490,6 +526,9 @@ def install(P):
                         return ioerr()
                     nn = w.get(ph2)
                     nn.kind, nn.mode = DIR, 0o755
+                    if ph2 in w.dyn_candidates:
+                        from .summ_dyn import DynDir
+                        w.dyn[ph2] = DynDir()
                 elif e2:
                     return ioerr(e2)
                 elif not w.kind_is(w.get(ph2), DIR, f"mkdirp-mid:{ph2}"):
@@ -501,6 +540,9 @@ def install(P):
             return ioerr("Other", "EACCES")
         n = w.get(phys)
         n.kind, n.mode = DIR, 0o755
+        if phys in w.dyn_candidates:
+            from .summ_dyn import DynDir
+            w.dyn[phys] = DynDir()
         return Ok()
 
     @P.summary("fs::create_dir", "create_dir")
